@@ -29,6 +29,19 @@ func classC07(o h.Outcome) string {
 	return o.Class
 }
 
+// markC07: level P is the class; the relation "a result or a non-nil error, never a panic, a crash,
+// a hang or an error handed back as data" is also checked on the implementation alone (the model
+// may decline a case, e.g. a numeral outside its fragment).
+func markC07(ec *EvalCase) {
+	ec.Proj = classC07
+	ec.Check = func(o h.Outcome) string {
+		if c := classC07(o); c != "normal" {
+			return "evaluation must return a result or a non-nil error; got " + c + " " + short(o.Note)
+		}
+		return ""
+	}
+}
+
 type namedD struct {
 	name string
 	d    *D
@@ -66,7 +79,7 @@ func receiversC07() []namedD {
 	}
 }
 
-var argPoolC07 = []string{"0", "-1", "1.5", "1e30", `""`, `"a"`, "true", "$.arr", `"$.k"`, "{$.t}", "2"}
+var argPoolC07 = []string{"0", "-1", "1.5", "1e30", "9223372036854775808", `""`, `"a"`, "true", "$.arr", `"$.k"`, "{$.t}", "2"}
 
 func funcNames() []string {
 	fs := mpath.ListFunctions()
@@ -114,12 +127,42 @@ func c07(c *Ctx) {
 			for _, t := range tuples {
 				q := "$.r." + fn + "(" + strings.Join(t, ",") + ")"
 				ec := c.AddEval(q, doc, "keyed:"+r.name, false, true)
-				ec.Proj = classC07
+				markC07(ec)
 				if len(t) <= 1 && !(len(t) == 1 && strings.HasPrefix(t[0], "$") || len(t) == 1 && strings.HasPrefix(t[0], "{")) {
 					q2 := "$." + fn + "(" + strings.Join(t, ",") + ")"
 					ec2 := c.AddEval(q2, r.d, "root:"+r.name, false, true)
-					ec2.Proj = classC07
+					markC07(ec2)
 				}
+			}
+		}
+	}
+	// boundary counts and indexes around the int64 / uint64 limits, on string and array receivers
+	huge := []string{"9223372036854775807", "9223372036854775808", "1e19", "18446744073709551615", "18446744073709551616", "-9223372036854775809", "1e18", "4294967296", "$.big"}
+	for _, fn := range []string{"Left", "Right", "TrimLeft", "TrimRight", "Index"} {
+		for _, hv := range huge {
+			doc := h.Obj("r", h.Str("hello"), "arr", h.SliceAny(h.FloatD(1), h.FloatD(2)), "big", h.IntBig("uint64", new(big.Int).Lsh(big.NewInt(1), 63)))
+			recv := "$.r."
+			if fn == "Index" {
+				recv = "$.arr."
+			}
+			ec := c.AddEval(recv+fn+"("+hv+")", doc, "boundary-counts", false, true)
+			markC07(ec)
+		}
+	}
+	// every receiver kind x key lookups (keys that fold onto exported and unexported fields, onto the
+	// internals of decimal.Decimal, absent keys), bare, under `?`, across arrays and inside filters / Select
+	keysC07 := []string{"a", "A", "b", "B", "k", "value", "Value", "exp", "zz"}
+	for _, r := range recvs {
+		for _, k := range keysC07 {
+			doc := h.Obj("r", r.d, "xs", h.SliceAny(r.d, r.d))
+			for _, q := range []string{"$.r." + k, "$.r." + k + "?.IsNull()", "$.xs." + k, "$.xs[@." + k + ".IsNull()]", "$.xs.Select(\"$." + k + "\")", "$." + k} {
+				var ec *EvalCase
+				if strings.HasPrefix(q, "$."+k) && !strings.HasPrefix(q, "$.r") && !strings.HasPrefix(q, "$.xs") {
+					ec = c.AddEval(q, r.d, "keys-root:"+r.name, false, true)
+				} else {
+					ec = c.AddEval(q, doc, "keys:"+r.name, false, true)
+				}
+				markC07(ec)
 			}
 		}
 	}
@@ -135,7 +178,7 @@ func c07(c *Ctx) {
 		doc := g.randDoc(3)
 		q := g.randQuery(3)
 		ec := c.AddEval(q, doc, "random", false, true)
-		ec.Proj = classC07
+		markC07(ec)
 	}
 	c.RunEvalCases()
 }
